@@ -229,7 +229,13 @@ func doRequestFollowRedirectsBuffer(ctx context.Context, req *protocol.Request, 
 
 	// In HTTP2 scenario, client use stream mode to create a request and its body is in body stream.
 	// In HTTP1, only client recv body exceed max body size and client is in stream mode can trig it.
-	body = resp.Body()
+	// (a body stream that fails half way is an error of the call, not an empty or a
+	// partial body)
+	var bodyErr error
+	body, bodyErr = resp.BodyE()
+	if err == nil {
+		err = bodyErr
+	}
 	// A reset of the response during the exchange (a redirect with a body, a body read
 	// that failed half way) hands its body buffer back to the pool: bodyBuf may belong
 	// to another response by now and must not be written to. Whichever buffer the
